@@ -137,6 +137,57 @@ def run(ctx):
             in_pool = {i.output_reference for t in cm.transaction_pool for i in t.inputs}
             c = rng.random()
             kind, tx = None, None
+            if step in (20, 45) and head != tree.cs.current_chain_hash:
+                # (first bring the node to the tree's head, validated)
+                cm.set_coinstate(tree.cs)
+                ops.append("sethead v t " + tree.cs.current_chain_hash.hex())
+                impl.append("ok")
+                ops.append("node setstate v 1")
+                impl.append("ok")
+                head = cm.coinstate.current_chain_hash
+            if step in (20, 45) and head == tree.cs.current_chain_hash and head in tree.own:
+                # a head change backwards, twice per scenario: a block adopted unvalidated during a bulk download, a spend of that
+                # block's reward admitted on top of it, then a refused block — the node falls back to its last validated state,
+                # where the spend's input does not exist
+                from . import ledger as _ledger
+                blk = tree.extend(head, n_tx=0)
+                node.CLOCK[0] = blk.timestamp + 5
+                rr = rn.deliver_block(1, blk, 41)
+                ops.append("addnv t t " + hx(blk.serialize()))
+                impl.append("ok")
+                ops.append("node block 1 41 %s %d" % (hx(blk.serialize()), node.CLOCK[0]))
+                impl.append(rr)
+                u2 = tree.utxo(blk.hash())
+                mine = [(r, o) for r, o in u2.items() if r.hash == blk.transactions[0].hash() and o.public_key.public_key in keys.pks
+                        and o.value > 1]
+                if mine and cm.coinstate.current_chain_hash == blk.hash():
+                    r, o = mine[0]
+                    tx = chain.make_tx(keys, u2, [r], [(o.value - 1, 0)])
+                    r_ = rn.deliver_tx(1, tx)
+                    ops.extend(keys.oracle_lines(sig_mark))
+                    impl.extend(["ok"] * (len(keys.oracle) - sig_mark))
+                    sig_mark = len(keys.oracle)
+                    ops.append("node tx 1 " + hx(tx.serialize()))
+                    impl.append(r_)
+                    res.count("spend_of_an_unvalidated_block's_reward_admitted" if tx.hash() in [t.hash() for t in cm.transaction_pool]
+                              else "spend_of_an_unvalidated_block's_reward_refused")
+                    bad = _ledger.make_candidate(_ledger.Crafter(tree), "reward_plus1", blk.hash(), [])
+                    if bad is not None:
+                        node.CLOCK[0] = max(node.CLOCK[0], bad[0].timestamp + 5)
+                        rr = rn.deliver_block(1, bad[0], 0)
+                        ops.extend(keys.oracle_lines(sig_mark))
+                        impl.extend(["ok"] * (len(keys.oracle) - sig_mark))
+                        sig_mark = len(keys.oracle)
+                        ops.append("node block 1 0 %s %d" % (hx(bad[0].serialize()), node.CLOCK[0]))
+                        impl.append(rr)
+                        res.count("fall_back_to_the_last_validated_state" if cm.coinstate.current_chain_hash != blk.hash()
+                                  else "refused_block_without_fall_back")
+                ops.append("node digest")
+                impl.append(rn.digest())
+                res.case((si, step, "fall_back"), nontrivial=True)
+                for msg in pool_problems(cm):
+                    res.violations.append({"kind": msg, "scenario": si, "step": step, "after": "fall back after a refused block"})
+                continue
             if c < 0.65:
                 sub = rng.random()
                 sp = [(r, o) for r, o in utxo.items() if o.public_key.public_key in keys.pks and o.value > 0]
